@@ -22,11 +22,28 @@ def _sep(rng, left_fixed=False, allow_letter=None):
     return rng.choice(SEPS)
 
 
-def gen_calendar_core(rng, coherent=True):
+def gen_calendar_core(rng, coherent=True, reorder=False):
     """-> (pattern text, finest calendar unit)"""
     kind = rng.choice(["y", "ym", "ym", "ymd", "ymd", "yj", "yq", "yw", "yu", "gv", "gv"])
     if not coherent:
         kind = rng.choice(["yv", "gw", "gu"])
+    if reorder:
+        # calendar parts not written most-significant-first (European dates, `MM.YYYY`): legal patterns whose text order
+        # is not the chronological order
+        year = rng.choice(["YYYY", "YYYY", "0Y"])
+        m = rng.choice(["MM", "0M"])
+        d = rng.choice(["DD", "0D"])
+        shape = rng.choice(["dmy", "dmy", "mdy", "my", "dym", "wy"])
+        if shape == "my":
+            return m + _sep(rng, m in FIXED_WIDTH) + year, "month"
+        if shape == "wy":
+            w = rng.choice(["WW", "0W"])
+            return w + _sep(rng, w in FIXED_WIDTH, "w") + year, "week"
+        order = {"dmy": [d, m, year], "mdy": [m, d, year], "dym": [d, year, m]}[shape]
+        text = order[0]
+        for prev, part in zip(order, order[1:]):
+            text += _sep(rng, prev in FIXED_WIDTH) + part
+        return text, "day"
     if kind in ("gv", "gw", "gu"):
         year = rng.choice(YEAR_G)
     else:
@@ -53,7 +70,7 @@ def gen_calendar_core(rng, coherent=True):
     raise AssertionError(kind)
 
 
-def gen_pattern(rng, family=None, coherent=True):
+def gen_pattern(rng, family=None, coherent=True, reorder=False):
     """-> dict(pattern=..., family=..., unit=finest calendar unit or None)"""
     family = family or rng.choice(["semver", "calver", "calver", "calver"])
     prefix = rng.choice(PREFIXES)
@@ -64,7 +81,7 @@ def gen_pattern(rng, family=None, coherent=True):
         if rng.random() < 0.15:
             core = core.replace(".", rng.choice(["-", "_"]))
     else:
-        core, unit = gen_calendar_core(rng, coherent)
+        core, unit = gen_calendar_core(rng, coherent, reorder)
         extras = rng.choice([[], ["BUILD"], ["BLD"], ["PATCH"], ["MINOR", "PATCH"], ["INC0"], ["INC1"], ["[PATCH]"],
                              ["[INC0]"], ["BUILD", "[PATCH]"], ["MINOR", "[PATCH]"], ["PATCH", "BUILD"], []])
         for part in extras:
